@@ -322,9 +322,9 @@ func (bi *bufInterp) condOf(b *ssa.BasicBlock) string {
 		t := edgeMustPass(bi.fn, edge{iff.Block(), iff.Block().Succs[0]}, b)
 		f := edgeMustPass(bi.fn, edge{iff.Block(), iff.Block().Succs[1]}, b)
 		if t && !f {
-			parts = append(parts, bi.norm(ex(iff.Cond)))
+			parts = append(parts, canonEdgeCond(iff, 0, bi.norm))
 		} else if f && !t {
-			parts = append(parts, "!"+bi.norm(ex(iff.Cond)))
+			parts = append(parts, canonEdgeCond(iff, 1, bi.norm))
 		}
 	}
 	sort.Strings(parts)
